@@ -258,12 +258,34 @@ Qed.
 Lemma length_store_code decl g xs : forall next, length (store_code decl g next xs) = length xs.
 Proof. induction xs as [|[x|] xs IH]; intros next; simpl; auto. destruct decl; simpl; rewrite IH; auto. Qed.
 
-Lemma length_compile_stmt fe fr s : forall g next pc brk cont,
-  length (compile_stmt fe fr g next pc brk cont s) = size_stmt fr s.
+Lemma compile_tests_cons2 fe g pc eq ps pe e e2 t :
+  compile_tests fe g pc eq ps pe (e :: e2 :: t) =
+  IDup :: compile_expr fe g (pc + 1) e MVal ++ [eq; IJmpIf ps]
+  ++ compile_tests fe g (pc + size_expr false e + 3) eq ps pe (e2 :: t).
+Proof. reflexivity. Qed.
+
+Lemma size_tests_cons e t : size_tests (e :: t) = size_expr false e + 3 + size_tests t.
+Proof. reflexivity. Qed.
+
+Lemma length_compile_tests fe g eq ps pe es : forall pc,
+  length (compile_tests fe g pc eq ps pe es) = size_tests es.
 Proof.
-  induction s; intros g next pc brk cont; simpl;
+  induction es as [|e [|e2 t] IH]; intros pc; auto.
+  - simpl. rewrite app_length, length_compile_expr. simpl. lia.
+  - rewrite compile_tests_cons2, size_tests_cons.
+    remember (compile_tests fe g (pc + size_expr false e + 3) eq ps pe (e2 :: t)) as Y.
+    assert (HY : length Y = size_tests (e2 :: t)) by (subst Y; apply IH).
+    cbn [length]. rewrite !app_length, length_compile_expr, HY. cbn [length is_jmp]. lia.
+Qed.
+
+Lemma length_compile_stmt fe fr s : forall g next pc brk cont dc dr,
+  length (compile_stmt fe fr g next pc brk cont dc dr s) = size_stmt fr dc dr s.
+Proof.
+  induction s; intros g next pc brk cont dc dr; simpl;
     repeat (rewrite ?app_length, ?length_compile_expr, ?length_compile_args, ?repeat_length, ?length_store_code,
-                    ?rev_length, ?IHs, ?IHs1, ?IHs2, ?IHs3; simpl); try lia.
+                    ?length_compile_tests, ?rev_length, ?IHs, ?IHs1, ?IHs2, ?IHs3; simpl); try lia.
+  - destruct tag; simpl; rewrite ?length_compile_expr; simpl; lia.
+  - destruct (is_nil s2); simpl; lia.
 Qed.
 
 Lemma alloc_results_ext xs : forall g next, exists ext, alloc_results g next xs = ext ++ g.
